@@ -8,7 +8,7 @@ import z3
 
 from pyvc import spec as S
 from pyvc import values as vm
-from pyvc.engine import Raise
+from pyvc.engine import OutOfReach, Raise
 from pyvc.values import BoolV, ClsV, Conc, FuncV, Ref, Sym, TupV
 from pyvc.verify import FunctionContract
 
@@ -371,12 +371,13 @@ def instantiate_typechange_contract():
         module, cname, fd = I.src.locate("%s:%s" % (MOD, QUAL))
         idx = [i for i, x in enumerate(fd.body) if isinstance(x, _ast.For) and _ast.unparse(x.iter) == "supers"
                and _ast.unparse(x.target) == "superclass"]
-        if len(idx) != 1 or _ast.unparse(fd.body[idx[0] - 1]) != "type_change = False":
-            raise OutOfReach("`type_change = False; for superclass in supers:` not found in __param_inheritance")
+        start = [i for i, x in enumerate(fd.body) if _ast.unparse(x) == "type_change = False"]
+        if len(idx) != 1 or len(start) != 1 or start[0] >= idx[0]:
+            raise OutOfReach("`type_change = False … for superclass in supers:` not found in __param_inheritance")
         st.env = dict(info["env"])
         c = dict(ctx)
         c.update({"module": module, "owner": cname, "qual": QUAL, "fnode": fd})
-        return outcomes(I.exec_block(fd.body[idx[0] - 1: idx[0] + 1], st, c))
+        return outcomes(I.exec_block(fd.body[start[0]: idx[0] + 1], st, c))
 
     def inst_now(I, st):
         return I.term(st.heap[holder["param"].oid].fields["instantiate"])
